@@ -125,20 +125,26 @@ def as_form(inds, form, env):
     return Population(iter(list(inds)), tracker, 0)
 
 
-def apply_config(R, tree, n, form, seed):
+def apply_config(R, tree, n, form, seed, again=()):
+    """apply ONE step object to a population of n; `again` lists further sizes the same object is then
+    applied with (a step object lives for a whole run and may be reused across runs)"""
     env = Env(seed)
     log = []
     step = build_step(tree, log)
-    pop = env.population(n)
-    top = {"e": "apply", "in_kind": form, "in_len": n, "k": n, "out_len": 0, "exc": "", "complete": False}
-    try:
-        with time_limit(20):
-            out = list(step.apply(env.problem, env.evaluator, env.rep, env.rs, as_form(pop, form, env), n, 1))
-        top["out_len"] = len(out)
-        top["complete"] = True
-    except Exception as e:
-        top["exc"] = exc_name(e)
-    return log + [top], {"k": "steps", "tree": tree, "n": n}
+    evs = []
+    for gi, size in enumerate((n,) + tuple(again)):
+        pop = env.population(size)
+        top = {"e": "apply", "in_kind": form, "in_len": size, "k": size, "out_len": 0, "exc": "", "complete": False}
+        try:
+            with time_limit(20):
+                out = list(step.apply(env.problem, env.evaluator, env.rep, env.rs, as_form(pop, form, env), size, gi + 1))
+            top["out_len"] = len(out)
+            top["complete"] = True
+        except Exception as e:
+            top["exc"] = exc_name(e)
+        evs += log + [top]
+        del log[:]
+    return evs, {"k": "steps", "tree": tree, "n": n}
 
 
 class GenObserver(SearchRecorder):
@@ -227,6 +233,7 @@ def ind_rec(ids, x, problem):
 
 def elitism_events(R, n_cases, seed0):
     evs_by_trace = []
+    keep_alive = []
     for c in range(n_cases):
         minimise = bool(c % 2)
         rs = NativeRandomSource(seed0 + c)
@@ -237,6 +244,12 @@ def elitism_events(R, n_cases, seed0):
         ev_ = SequentialEvaluator()
         n = R.randint(1, 6)
         pop = [Individual(rep.create_genotype(rs), rep) for _ in range(n)]
+        other = None
+        if c % 3 == 0:
+            # the individuals already carry a fitness for ANOTHER problem (opposite direction, other values)
+            # that is still alive: the step must rank by the problem it is given
+            other = SingleObjectiveProblem(lambda p: float((prog_value(p) * 7 + 3) % 5), minimize=not minimise)
+            SequentialEvaluator().evaluate(other, pop)
         if n >= 3 and R.random() < 0.4:
             pop.append(pop[0])                # the same individual twice
         evs = []
@@ -259,7 +272,8 @@ def elitism_events(R, n_cases, seed0):
             ev_.evaluate(problem, pop)
             e["pop"] = [ind_rec(ids, x, problem) for x in pop]
             evs.append(e)
-        evs_by_trace.append((f"elite/{c}", evs, {"k": "elite"}))
+        evs_by_trace.append((f"elite/{c}", evs, {"k": "elite", "other_problem": other is not None}))
+        keep_alive.append(other)
     return evs_by_trace
 
 
@@ -466,7 +480,8 @@ def main():
         for i, tree in enumerate(sel):
             for n in (sizes if not quick else [sizes[(i + a.seed) % len(sizes)]]):
                 form = forms[(i + n) % 3]
-                ev, cfg = apply_config(R, tree, n, form, 1000 + i)
+                again = () if i % 4 else (sizes[(i + 1) % len(sizes)], sizes[(i + 3) % len(sizes)])
+                ev, cfg = apply_config(R, tree, n, form, 1000 + i, again)
                 batch.trace(f"d1/{i}/{n}/{form}", ev, cfg)
                 nev += len(ev)
         for i, tree in enumerate(deep if not quick else deep[:400]):
